@@ -40,8 +40,9 @@ package certloader
 //@
 //@ func (*Certificate).Chain
 //@   property C07
-//@   loop 0 sig "for i, cert := range s.Certificates" invariant s.Leaf != nil ==> len(chain) >= 1 && chain[0] == s.Leaf
+//@   loop 0 sig "for i, cert := range s.Certificates" invariant (s.Leaf != nil ==> len(chain) >= 1 && chain[0] == s.Leaf) && (chain == nil || allocated(chain))
 //@   ensures @chain_begins_with_the_leaf s.Leaf != nil ==> len(ret0) >= 1 && ret0[0] == s.Leaf
+//@   modifies nothing
 
 //@ func ParseAnyPrivateKey
 //@   property C11
